@@ -2938,6 +2938,32 @@ void mmd_engine_convert_to_file(mmd_engine * e, short format, const char * direc
 			textbundle_write_wrapper(filepath, output, e, directory);
 			break;
 
+		case FORMAT_ODT:
+		case FORMAT_FODT:
+		case FORMAT_ITMZ: {
+			// These formats wrap the exported content in a package
+			DString * result;
+
+			if (format == FORMAT_ODT) {
+				result = opendocument_text_create(output, e, directory);
+			} else if (format == FORMAT_FODT) {
+				result = opendocument_flat_text_create(output, e, directory);
+			} else {
+				result = itmz_create(output, e, directory);
+			}
+
+			if (!(output_stream = fopen(filepath, "w"))) {
+				// Failed to open file
+				perror(filepath);
+			} else {
+				fwrite(result->str, result->currentStringLength, 1, output_stream);
+				fclose(output_stream);
+			}
+
+			d_string_free(result, true);
+			break;
+		}
+
 		default:
 
 			// Basic formats just write to file
